@@ -31,7 +31,7 @@ theorem close_cancels_under_mutex_then_closes_done :
     between g_Channel_Close_0 (is K.cancelcall S.c_cancel) (is K.unlock S.Channel_mutex) (is K.close S.Channel_done) = true ∧
     dominates g_Channel_Close (is K.oncedo S.Channel_close) (is K.lit S.Channel_Close_0) = true := by decide
 theorem cleanup_goroutine_closes_on_ctx :
-    dominates g_Channel_cleanup (is K.ctxdone S.Channel_ctx) (is K.call S.Close) = true ∧
-    has g_Channel_cleanup (is K.call S.Close) = true := by decide
+    dominates g_Channel_cleanup (is K.ctxdone S.Channel_ctx) (is K.call S.Channel_Close) = true ∧
+    has g_Channel_cleanup (is K.call S.Channel_Close) = true := by decide
 
 end BB.Conform.Channel
